@@ -508,6 +508,13 @@ Section Run.
     intro H. eapply model_rule_plain; eauto. left. exact H.
   Qed.
 
+  Lemma demand_m_gov : forall s ls, Inv s ls -> forall n sb o,
+    demand_m model_rule ls (gov s n) sb o = demand (gov s n) sb o.
+  Proof.
+    intros s ls HI n sb o. destruct (gov s n) as [p| |] eqn:Eg; try reflexivity.
+    pose proof (gov_plain _ _ HI _ _ Eg) as Hp. destruct p; try discriminate Hp; reflexivity.
+  Qed.
+
   Lemma rel_plain : forall s ls, Inv s ls -> forall n p, rel (gov s n) p -> plainp p = true.
   Proof. intros s ls HI n p [E|[_ ->]]; [eapply gov_plain; eauto|reflexivity]. Qed.
 
@@ -678,6 +685,102 @@ Section Run.
           apply Inv_resync with (s := s); auto; intros v0 Hv; eapply inv_st; eauto.
   Qed.
 
+  (* --- Model.step on plain traits is [step_p]; the law's full bookkeeping agrees with [law_next0] --- *)
+  Lemma getattr_m_plain : forall s n p, plainp p = true -> getattr_m pt s n p = getattr s n p.
+  Proof. intros s n p H. destruct p; try discriminate H; reflexivity. Qed.
+  Lemma setattr_m_plain : forall s n p v, plainp p = true -> setattr_m pt s n p v = setattr s n p v.
+  Proof. intros s n p v H. destruct p; try discriminate H; reflexivity. Qed.
+
+  Lemma step_plain_eq : forall s ls o, Inv s ls -> clean_step s o = true -> step pt s o = step_p s o.
+  Proof.
+    intros s ls o HI Hc. destruct (inv_plain4 _ _ HI) as (P1 & P2 & P3 & P4).
+    destruct o as [n|n v|n|n q|n]; simpl.
+    - unfold get_with. destruct (assoc n (s_od s)); auto.
+      destruct (assoc n (s_itd s)) eqn:Ei; [apply getattr_m_plain; exact (plain_assoc _ _ _ P3 Ei)|].
+      destruct (assoc n (s_ctd s)) eqn:Ec; [apply getattr_m_plain; exact (plain_assoc _ _ _ P4 Ec)|].
+      unfold prefix_trait. destruct (dunder n); auto.
+      destruct (first_match n pt) as [[q p]|] eqn:Ef; auto.
+      apply getattr_m_plain. exact (plain_first_match _ _ _ _ P2 Ef).
+    - destruct (lookup_set pt s n) as [[p s1]|e] eqn:El; auto.
+      apply setattr_m_plain. destruct (lookup_set_inl _ _ _ _ _ HI El) as [Hr _].
+      eapply rel_plain; eauto.
+    - reflexivity.
+    - simpl in Hc. apply andb_true_iff in Hc. destruct Hc as [Hq _].
+      destruct q; try discriminate Hq; reflexivity.
+    - unfold rem1, amem. destruct (assoc n (s_itd s)) as [p|] eqn:Ei.
+      + pose proof (plain_assoc _ _ _ P3 Ei) as Hp.
+        destruct p; try discriminate Hp; simpl; rewrite Ei; reflexivity.
+      + destruct (assoc n (s_ctd s)) as [p|] eqn:Ec; [|reflexivity].
+        pose proof (plain_assoc _ _ _ P4 Ec) as Hp.
+        destruct p; try discriminate Hp; simpl; rewrite Ei, Ec; reflexivity.
+  Qed.
+
+  Lemma step_p_out : forall s o, exists s' x, step_p s o = out s' (op_name o) x.
+  Proof.
+    intros s o. destruct o as [n|n v|n|n q|n]; simpl;
+      unfold lookup_set, prefix_trait, getattr, setattr, delattr;
+      repeat match goal with
+             | |- context [match ?x with _ => _ end] => destruct x
+             end; eauto.
+  Qed.
+
+  Lemma resync_same : forall (l : list (name * Z)) m v, assoc m l = v ->
+    forall k, assoc k (resync m v l) = assoc k l.
+  Proof.
+    intros l m v E k. unfold resync. destruct v as [x|]; rewrite ?assoc_aset, ?assoc_adel;
+      destruct (name_eqb m k) eqn:Em; auto; apply name_eqb_eq in Em; subst; auto.
+  Qed.
+
+  Lemma Inv_od_ext : forall s itd lod lod', Inv s (mkL itd lod) ->
+    (forall k, assoc k lod' = assoc k lod) -> Inv s (mkL itd lod').
+  Proof.
+    intros s itd lod lod' H E. destruct H as [A B C1 C2 D P]. constructor; simpl in *; auto.
+    intro m. rewrite E. auto.
+  Qed.
+
+  Lemma law_next_bridge : forall s ls o, Inv s ls -> clean_step s o = true ->
+    Inv (fst (step_p s o)) (law_next0 ls o (snd (step_p s o))) ->
+    Inv (fst (step_p s o)) (law_next model_rule ls o (snd (step_p s o))).
+  Proof.
+    intros s ls o HI Hc H0. destruct (inv_plain4 _ _ HI) as (P1 & P2 & P3 & P4).
+    destruct (step_p_out s o) as (s' & x & E). rewrite E in *. simpl fst in *. simpl snd in *.
+    assert (Ei : l_itd (law_next model_rule ls o (snd (out s' (op_name o) x))) =
+                 l_itd (law_next0 ls o (snd (out s' (op_name o) x)))).
+    { unfold law_next, law_next0, out; simpl. destruct o as [n|n v|n|n q|n]; auto.
+      - simpl in Hc. apply andb_true_iff in Hc. destruct Hc as [Hq _].
+        destruct q; try discriminate Hq; reflexivity.
+      - destruct x; auto. unfold found_trait. rewrite (inv_itd _ _ HI). cbn [op_name].
+        destruct (assoc n (s_itd s)) as [p|] eqn:Ea.
+        + pose proof (plain_assoc _ _ _ P3 Ea) as Hp. destruct p; try discriminate Hp; reflexivity.
+        + destruct (model_rule n) as [p| |] eqn:Em; auto.
+          assert (Hp : plainp p = true) by (eapply model_rule_plain; eauto; left; exact Em).
+          destruct p; try discriminate Hp; reflexivity. }
+    remember (law_next0 ls o (snd (out s' (op_name o) x))) as l0 eqn:El0.
+    destruct l0 as [itd0 od0]. simpl in Ei.
+    pose proof (inv_od _ _ H0) as Hod. simpl in Hod.
+    assert (Eod0 : od0 = resync (op_name o) (assoc (op_name o) (s_od s')) (l_od ls)).
+    { unfold law_next0, out in El0. simpl in El0. inversion El0. reflexivity. }
+    match goal with |- Inv _ ?L => set (ln := L) end.
+    assert (Ei' : l_itd ln = itd0) by exact Ei.
+    assert (Eln : ln = mkL (l_itd ln) (l_od ln)) by (destruct ln; reflexivity).
+    rewrite Eln, Ei'. apply Inv_od_ext with (lod := od0); [rewrite El0; exact H0|].
+    intro k. unfold ln, law_next, out. cbn [snd o_stored o_shadow o_base l_od]. rewrite <- Eod0.
+    assert (Hod' : forall m, assoc m od0 = assoc m (s_od s'))
+      by (intro m; rewrite Eod0; unfold resync; apply Hod).
+    assert (E2 : forall k, assoc k (resync (op_name o ++ [US]) (assoc (op_name o ++ [US]) (s_od s')) od0) = assoc k od0)
+      by (apply resync_same; apply Hod').
+    destruct (ends_us (op_name o)); [|apply E2].
+    rewrite resync_same; [apply E2|]. rewrite E2. apply Hod'.
+  Qed.
+
+  Lemma step_ok : forall s ls o, Inv s ls -> clean_step s o = true ->
+    law_step model_rule ls o (snd (step pt s o)) = [] /\
+    Inv (fst (step pt s o)) (law_next model_rule ls o (snd (step pt s o))).
+  Proof.
+    intros s ls o HI Hc. rewrite (step_plain_eq s ls o HI Hc).
+    destruct (step_ok0 s ls o HI Hc) as [A B]. split; auto. apply law_next_bridge; auto.
+  Qed.
+
   Lemma Inv_init : plain_tab ct0 = true -> plain_tab pt = true -> Inv (init_state ct0) l_init.
   Proof.
     intros P1 P2. constructor; simpl; auto; try discriminate.
@@ -694,7 +797,8 @@ Section Run.
     destruct (step pt s o) as [s' ob] eqn:E. simpl in *. rewrite Hl. simpl. apply IH; auto.
   Qed.
 
-  Lemma run_law : forall ops i, clean_run (init_state ct0) ops = true ->
+  Lemma run_law : forall ops i, plain_tab ct0 = true -> plain_tab pt = true ->
+    clean_run (init_state ct0) ops = true ->
     law_hist model_rule i l_init (run pt (init_state ct0) ops) = [].
   Proof. intros. apply run_law_inv; auto using Inv_init. Qed.
 End Run.
@@ -891,24 +995,40 @@ Qed.
 (* ------------------------------------------------------------------ *)
 (* Part 5: the main theorem against the declarative rule, and the policy clauses *)
 
+Lemma law_step_ext : forall (r1 r2 : name -> rule), (forall n, r1 n = r2 n) ->
+  forall ls o ob, law_step r1 ls o ob = law_step r2 ls o ob.
+Proof.
+  intros r1 r2 He ls o ob. unfold law_step, demand_m, governing. rewrite !He. reflexivity.
+Qed.
+Lemma law_next_ext : forall (r1 r2 : name -> rule), (forall n, r1 n = r2 n) ->
+  forall ls o ob, law_next r1 ls o ob = law_next r2 ls o ob.
+Proof.
+  intros r1 r2 He ls o ob. unfold law_next, found_trait. rewrite !He. reflexivity.
+Qed.
+
 Lemma law_hist_ext : forall (r1 r2 : name -> rule), (forall n, r1 n = r2 n) ->
   forall h i ls, law_hist r1 i ls h = law_hist r2 i ls h.
 Proof.
   intros r1 r2 He. induction h as [|[o ob] r IH]; intros i ls; simpl; auto.
-  rewrite IH. f_equal. f_equal. unfold law_step, governing. rewrite He. reflexivity.
+  rewrite IH, (law_step_ext _ _ He), (law_next_ext _ _ He). reflexivity.
 Qed.
 
 Lemma class_tables_rule : forall h c n,
   model_rule (fst (class_tables h c)) (snd (class_tables h c)) n = spec_rule h c n.
 Proof. intros. unfold class_tables, spec_rule. apply resolve_order_lemma. Qed.
 
+(* no mapped trait in the class tables (mapped traits: Part 9) *)
+Definition plain_class (h : list classdef) (c : nat) : bool :=
+  plain_tab (fst (class_tables h c)) && plain_tab (snd (class_tables h c)).
+
 Lemma law_all_histories : forall h c ops i,
+  plain_class h c = true ->
   clean_run (snd (class_tables h c)) (init_state (fst (class_tables h c))) ops = true ->
   law_hist (spec_rule h c) i l_init
            (run (snd (class_tables h c)) (init_state (fst (class_tables h c))) ops) = [].
 Proof.
-  intros h c ops i Hc.
-  rewrite <- (law_hist_ext _ _ (class_tables_rule h c)). apply run_law. exact Hc.
+  intros h c ops i Hp Hc. apply andb_true_iff in Hp. destruct Hp as [P1 P2].
+  rewrite <- (law_hist_ext _ _ (class_tables_rule h c)). apply run_law; auto.
 Qed.
 
 (* states reachable by clean histories satisfy the invariant *)
@@ -940,6 +1060,7 @@ Section Clauses.
     assert (Hc : clean_step s o = true) by (destruct o; try discriminate; reflexivity).
     destruct (step_ok ct0 pt s ls o HI Hc) as [Hl _].
     unfold law_step in Hl. rewrite (governing_gov ct0 pt _ _ _ HI), (inv_od _ _ _ _ HI) in Hl.
+    rewrite (demand_m_gov ct0 pt _ _ HI) in Hl.
     destruct o; try discriminate; simpl op_name in *;
       match type of Hl with context [demand ?g ?sb ?o] => destruct (demand g sb o) as [w ws] end;
       apply chk3_inv in Hl; exact Hl.
@@ -956,28 +1077,25 @@ Section Clauses.
     intros [a|] [b|] H; simpl in H; try discriminate; auto. apply Z.eqb_eq in H. congruence.
   Qed.
 
-  Lemma step_stored : forall s o, o_stored (snd (step pt s o)) = assoc (op_name o) (s_od (fst (step pt s o))).
+  Ltac crush_step :=
+    unfold get_with, getattr_m, getattr0, getattr_map, setattr_m, post_map, nested_set, lookup_set,
+           prefix_trait, getattr, setattr, delattr, rem1;
+    repeat match goal with
+           | |- context [match ?x with _ => _ end] => destruct x
+           end.
+
+  Lemma step_out : forall s o, exists s' x, step pt s o = out s' (op_name o) x.
   Proof.
-    intros s o. destruct o as [n|n v|n|n q|n]; simpl; unfold lookup_set, prefix_trait.
-    - destruct (assoc n (s_od s)) eqn:E; [simpl; auto|].
-      destruct (assoc n (s_itd s)) as [p|]; [destruct p; reflexivity|].
-      destruct (assoc n (s_ctd s)) as [p|]; [destruct p; reflexivity|].
-      destruct (dunder n); [simpl; auto|]. destruct (first_match n pt) as [[q p]|]; [destruct p; reflexivity|simpl; auto].
-    - assert (H : forall s1 p, o_stored (snd (setattr s1 n p v)) = assoc n (s_od (fst (setattr s1 n p v)))).
-      { intros s1 p. destruct p as [ |d| |d|c|k|k d|m d|m]; simpl; auto.
-        - destruct (negb (Z.eqb d VUndef)); [reflexivity|].
-          destruct (assoc n (s_od s1)) as [w|]; [destruct (Z.eqb w VUndef)|]; reflexivity.
-        - destruct k as [k|]; [destruct (validate k v)|]; reflexivity.
-        - destruct (Z.eqb v VUndef); [|destruct (validate k v)]; reflexivity. }
-      destruct (assoc n (s_itd s)); [apply H|]. destruct (assoc n (s_ctd s)); [apply H|].
-      destruct (dunder n); [apply H|]. destruct (first_match n pt) as [[q p]|]; [apply H|reflexivity].
-    - assert (H : forall s1 p, o_stored (snd (delattr s1 n p)) = assoc n (s_od (fst (delattr s1 n p)))).
-      { intros s1 p. destruct p; simpl; auto. destruct (amem n (s_od s1)); reflexivity. }
-      destruct (assoc n (s_itd s)); [apply H|]. destruct (assoc n (s_ctd s)); [apply H|].
-      destruct (dunder n); [apply H|]. destruct (first_match n pt) as [[q p]|]; [apply H|reflexivity].
-    - reflexivity.
-    - destruct (assoc n (s_itd s)); [reflexivity|]. destruct (amem n (s_ctd s)); reflexivity.
+    intros s o. destruct o as [n|n v|n|n q|n]; simpl.
+    - crush_step; eauto.
+    - crush_step; eauto.
+    - crush_step; eauto.
+    - eauto.
+    - crush_step; eauto.
   Qed.
+
+  Lemma step_stored : forall s o, o_stored (snd (step pt s o)) = assoc (op_name o) (s_od (fst (step pt s o))).
+  Proof. intros s o. destruct (step_out s o) as (s' & x & E). rewrite E. reflexivity. Qed.
 
   Lemma step_stored_set : forall s n v,
     o_stored (snd (step pt s (OSet n v))) = assoc n (s_od (fst (step pt s (OSet n v)))).
@@ -986,27 +1104,85 @@ Section Clauses.
     o_stored (snd (step pt s (ODel n))) = assoc n (s_od (fst (step pt s (ODel n)))).
   Proof. intros. exact (step_stored s (ODel n)). Qed.
 
+  (* --- instance traits change only by add_trait / remove_trait (mapped traits included) --- *)
+  Lemma getattr_itd : forall s n p, s_itd (fst (getattr s n p)) = s_itd s.
+  Proof. intros s n p. destruct p; reflexivity. Qed.
+  Lemma setattr_itd : forall s n p v, s_itd (fst (setattr s n p v)) = s_itd s.
+  Proof.
+    intros s n p v. destruct p as [ |d| |d|c|k|k d|m d|m]; simpl; auto.
+    - destruct (negb (Z.eqb d VUndef)); [reflexivity|].
+      destruct (assoc n (s_od s)) as [w|]; [destruct (Z.eqb w VUndef)|]; reflexivity.
+    - destruct k as [k|]; [destruct (validate k v)|]; reflexivity.
+    - destruct (Z.eqb v VUndef); [|destruct (validate k v)]; reflexivity.
+    - destruct (Z.eqb v VUndef); [|destruct (zassoc v m)]; reflexivity.
+  Qed.
+  Lemma delattr_itd : forall s n p, s_itd (fst (delattr s n p)) = s_itd s.
+  Proof. intros s n p. destruct p; simpl; auto. destruct (amem n (s_od s)); reflexivity. Qed.
+  Lemma prefix_trait_itd : forall s n b p s', prefix_trait pt s n b = inl (p, s') -> s_itd s' = s_itd s.
+  Proof.
+    intros s n b p s'. unfold prefix_trait. destruct (dunder n).
+    - destruct b; [|discriminate]. intro E. inversion E. reflexivity.
+    - destruct (first_match n pt) as [[q p1]|]; [|discriminate]. intro E. inversion E. reflexivity.
+  Qed.
+  Lemma lookup_set_itd : forall s n p s', lookup_set pt s n = inl (p, s') -> s_itd s' = s_itd s.
+  Proof.
+    intros s n p s'. unfold lookup_set. destruct (assoc n (s_itd s)); [intro E; inversion E; reflexivity|].
+    destruct (assoc n (s_ctd s)); [intro E; inversion E; reflexivity|]. apply prefix_trait_itd.
+  Qed.
+  Lemma nested_set_itd : forall s m w, s_itd (fst (nested_set pt s m w)) = s_itd s.
+  Proof.
+    intros s m w. unfold nested_set. destruct (lookup_set pt s m) as [[p s']|e] eqn:E; [|reflexivity].
+    pose proof (setattr_itd s' m p w) as H. destruct (setattr s' m p w) as [s'' ob]. simpl in *.
+    rewrite H. eapply lookup_set_itd; eauto.
+  Qed.
+  Lemma post_map_itd : forall s n m v, s_itd (fst (post_map pt s n m v)) = s_itd s.
+  Proof. intros s n m v. unfold post_map. destruct (zassoc v m); [apply nested_set_itd|reflexivity]. Qed.
+  Lemma getattr0_itd : forall s n p, s_itd (fst (getattr0 pt s n p)) = s_itd s.
+  Proof.
+    intros s n p. destruct p; try apply getattr_itd. unfold getattr0, getattr_map.
+    pose proof (post_map_itd (set_od s (aset n d (s_od s))) n m d) as H.
+    destruct (post_map pt (set_od s (aset n d (s_od s))) n m d) as [s1 e]. simpl in H.
+    destruct e; simpl; exact H.
+  Qed.
+  Lemma get_with_itd : forall ga, (forall s n p, s_itd (fst (ga s n p)) = s_itd s) ->
+    forall s n, s_itd (fst (get_with pt ga s n)) = s_itd s.
+  Proof.
+    intros ga H s n. unfold get_with. destruct (assoc n (s_od s)); [reflexivity|].
+    destruct (assoc n (s_itd s)); [apply H|]. destruct (assoc n (s_ctd s)); [apply H|].
+    destruct (prefix_trait pt s n false) as [[p s']|e] eqn:E; [|reflexivity].
+    rewrite H. eapply prefix_trait_itd; eauto.
+  Qed.
+  Lemma getattr_m_itd : forall s n p, s_itd (fst (getattr_m pt s n p)) = s_itd s.
+  Proof.
+    intros s n p. destruct p; try apply getattr0_itd. unfold getattr_m.
+    pose proof (get_with_itd (getattr0 pt) getattr0_itd s (removelast n)) as H.
+    destruct (get_with pt (getattr0 pt) s (removelast n)) as [s1 ob]. simpl in H.
+    destruct (o_out ob) as [x| |e]; simpl; auto. destruct (zassoc x m); simpl; auto.
+  Qed.
+  Lemma setattr_m_itd : forall s n p v, s_itd (fst (setattr_m pt s n p v)) = s_itd s.
+  Proof.
+    intros s n p v. destruct p; try apply setattr_itd. unfold setattr_m.
+    destruct (negb (Z.eqb v VUndef) && match zassoc v m with Some _ => false | None => true end); [reflexivity|].
+    destruct (assoc n (s_od s)) as [o|].
+    - destruct (Z.eqb o v); [reflexivity|].
+      pose proof (post_map_itd (set_od s (aset n v (s_od s))) n m v) as H.
+      destruct (post_map pt (set_od s (aset n v (s_od s))) n m v) as [s3 e]. simpl in H. destruct e; exact H.
+    - pose proof (post_map_itd (set_od s (aset n d (s_od s))) n m d) as H1.
+      destruct (post_map pt (set_od s (aset n d (s_od s))) n m d) as [s1 e1]. simpl in H1.
+      destruct e1; [exact H1|]. destruct (Z.eqb d v); [exact H1|].
+      pose proof (post_map_itd (set_od s1 (aset n v (s_od s1))) n m v) as H.
+      destruct (post_map pt (set_od s1 (aset n v (s_od s1))) n m v) as [s3 e]. simpl in H.
+      destruct e; simpl; rewrite H; exact H1.
+  Qed.
+
   Lemma step_itd_access : forall s o, is_access o = true -> s_itd (fst (step pt s o)) = s_itd s.
   Proof.
-    intros s o Ha. destruct o as [n|n v|n|n q|n]; try discriminate; simpl; unfold lookup_set, prefix_trait.
-    - destruct (assoc n (s_od s)); [reflexivity|].
-      destruct (assoc n (s_itd s)) as [p|] eqn:E; [destruct p; reflexivity|].
-      destruct (assoc n (s_ctd s)) as [p|]; [destruct p; reflexivity|].
-      destruct (dunder n); [reflexivity|]. destruct (first_match n pt) as [[q p]|]; [destruct p; reflexivity|reflexivity].
-    - assert (H : forall s1 p, s_itd (fst (setattr s1 n p v)) = s_itd s1).
-      { intros s1 p. destruct p as [ |d| |d|c|k|k d|m d|m]; simpl; auto.
-        - destruct (negb (Z.eqb d VUndef)); [reflexivity|].
-          destruct (assoc n (s_od s1)) as [w|]; [destruct (Z.eqb w VUndef)|]; reflexivity.
-        - destruct k as [k|]; [destruct (validate k v)|]; reflexivity.
-        - destruct (Z.eqb v VUndef); [|destruct (validate k v)]; reflexivity. }
-      destruct (assoc n (s_itd s)) eqn:E; [apply H|]. destruct (assoc n (s_ctd s)); [apply H|].
-      destruct (dunder n); [rewrite H; reflexivity|].
-      destruct (first_match n pt) as [[q p]|]; [rewrite H; reflexivity|reflexivity].
-    - assert (H : forall s1 p, s_itd (fst (delattr s1 n p)) = s_itd s1).
-      { intros s1 p. destruct p; simpl; auto. destruct (amem n (s_od s1)); reflexivity. }
-      destruct (assoc n (s_itd s)) eqn:E; [apply H|]. destruct (assoc n (s_ctd s)); [apply H|].
-      destruct (dunder n); [rewrite H; reflexivity|].
-      destruct (first_match n pt) as [[q p]|]; [rewrite H; reflexivity|reflexivity].
+    intros s o Ha. destruct o as [n|n v|n|n q|n]; try discriminate; simpl.
+    - apply get_with_itd. apply getattr_m_itd.
+    - destruct (lookup_set pt s n) as [[p s']|e] eqn:E; [|reflexivity].
+      rewrite setattr_m_itd. eapply lookup_set_itd; eauto.
+    - destruct (lookup_set pt s n) as [[p s']|e] eqn:E; [|reflexivity].
+      rewrite delattr_itd. eapply lookup_set_itd; eauto.
   Qed.
 
   (* get / set / del never change which trait governs any name *)
@@ -1181,13 +1357,14 @@ Section Clauses.
   Proof.
     intros s ls n HI s1.
     destruct (step_ok ct0 pt s ls (ORem n) HI eq_refl) as [_ HI1]. fold s1 in HI1.
+    pose proof (step_plain_eq ct0 pt s ls (ORem n) HI eq_refl) as Ep.
     assert (Hi : s_itd s1 = adel n (s_itd s)).
-    { unfold s1. simpl. destruct (assoc n (s_itd s)) eqn:Ei; [reflexivity|].
+    { unfold s1. rewrite Ep. simpl. destruct (assoc n (s_itd s)) eqn:Ei; [reflexivity|].
       rewrite (adel_absent _ _ Ei). destruct (amem n (s_ctd s)); reflexivity. }
     split; [|split; [|split]].
     - unfold Proofs.gov. rewrite Hi, assoc_adel, name_eqb_refl. reflexivity.
     - intros m Hm. unfold Proofs.gov. rewrite Hi, assoc_adel, name_eqb_neq by congruence. reflexivity.
-    - intro Hn. unfold s1. simpl. destruct (assoc n (s_itd s)); [|congruence].
+    - intro Hn. unfold s1. rewrite Ep. simpl. destruct (assoc n (s_itd s)); [|congruence].
       simpl. rewrite assoc_adel, name_eqb_refl. auto.
     - eauto.
   Qed.
@@ -1278,17 +1455,19 @@ Proof.
   intros ct0 pt s ls H. constructor; simpl; auto; try discriminate.
   - apply (inv_c1 _ _ _ _ H).
   - apply (inv_c2 _ _ _ _ H).
+  - destruct (inv_plain4 _ _ _ _ H) as (P1 & P2 & P3 & P4). rewrite P1, P2, P4. reflexivity.
 Qed.
 
 Lemma law_second_instance : forall h c pre ops i,
+  plain_class h c = true ->
   let t := class_tables h c in
   clean_run (snd t) (init_state (fst t)) pre = true ->
   let s2 := mkState (s_ctd (final_state (snd t) (init_state (fst t)) pre)) [] [] in
   clean_run (snd t) s2 ops = true ->
   law_hist (spec_rule h c) i l_init (run (snd t) s2 ops) = [].
 Proof.
-  intros h c pre ops i t Hp s2 Hc.
-  destruct (final_Inv (fst t) (snd t) pre _ _ (Inv_init (fst t) (snd t)) Hp) as [ls' HI].
+  intros h c pre ops i Hpl t Hp s2 Hc. apply andb_true_iff in Hpl. destruct Hpl as [P1 P2].
+  destruct (final_Inv (fst t) (snd t) pre _ _ (Inv_init (fst t) (snd t) P1 P2) Hp) as [ls' HI].
   rewrite <- (law_hist_ext _ _ (class_tables_rule h c)).
   apply run_law_inv; auto. eapply Inv_second_instance; eauto.
 Qed.
@@ -1455,15 +1634,17 @@ Proof. intros. unfold mro_rule, spec_rule. apply mro_rule_single; auto using sin
    every single-inheritance hierarchy) the law holds on every clean history *)
 Lemma law_all_histories_mro : forall h c ops i,
   (forall n, mro_rule h c n = spec_rule h c n) ->
+  plain_class h c = true ->
   clean_run (snd (class_tables h c)) (init_state (fst (class_tables h c))) ops = true ->
   law_hist (mro_rule h c) i l_init
            (run (snd (class_tables h c)) (init_state (fst (class_tables h c))) ops) = [].
 Proof.
-  intros h c ops i He Hc. rewrite (law_hist_ext _ _ He). apply law_all_histories. exact Hc.
+  intros h c ops i He Hp Hc. rewrite (law_hist_ext _ _ He). apply law_all_histories; auto.
 Qed.
 
 Lemma law_single_inheritance : forall h c ops i,
   single h = true -> (c < length (roots ++ h))%nat ->
+  plain_class h c = true ->
   clean_run (snd (class_tables h c)) (init_state (fst (class_tables h c))) ops = true ->
   law_hist (mro_rule h c) i l_init
            (run (snd (class_tables h c)) (init_state (fst (class_tables h c))) ops) = [].
@@ -1496,7 +1677,7 @@ Lemma law_hist2_ext : forall (r1 r2 : name -> rule), (forall n, r1 n = r2 n) ->
   forall h i la lb, law_hist2 r1 i la lb h = law_hist2 r2 i la lb h.
 Proof.
   intros r1 r2 He. induction h as [|[[w o] ob] r IH]; intros i la lb; simpl; auto.
-  rewrite IH. f_equal. f_equal. unfold law_step, governing. rewrite He. reflexivity.
+  rewrite IH, (law_step_ext _ _ He), (law_next_ext _ _ He). reflexivity.
 Qed.
 
 Definition st_of (ctd : ctab) (x : inst) : state := mkState ctd (fst x) (snd x).
@@ -1519,6 +1700,9 @@ Proof.
   - apply (inv_c1 _ _ _ _ H1).
   - apply (inv_c2 _ _ _ _ H1).
   - intros m v Hm. apply (inv_st _ _ _ _ H2 m v Hm).
+  - destruct (inv_plain4 _ _ _ _ H1) as (P1 & P2 & _ & P4).
+    destruct (inv_plain4 _ _ _ _ H2) as (_ & _ & P3 & _). simpl in P3.
+    rewrite P1, P2, P3, P4. reflexivity.
 Qed.
 
 Lemma run2_law_inv : forall ct0 pt ops ctd a b la lb i,
@@ -1543,12 +1727,14 @@ Proof.
 Qed.
 
 Lemma law_two_instances : forall h c ops i,
+  plain_class h c = true ->
   clean_run2 (snd (class_tables h c)) (init_state2 (fst (class_tables h c))) ops = true ->
   law_hist2 (spec_rule h c) i l_init l_init
             (run2 (snd (class_tables h c)) (init_state2 (fst (class_tables h c))) ops) = [].
 Proof.
-  intros h c ops i Hc. rewrite <- (law_hist2_ext _ _ (class_tables_rule h c)).
-  apply run2_law_inv; auto; apply Inv_init.
+  intros h c ops i Hp Hc. apply andb_true_iff in Hp. destruct Hp as [P1 P2].
+  rewrite <- (law_hist2_ext _ _ (class_tables_rule h c)).
+  apply run2_law_inv; auto; apply Inv_init; auto.
 Qed.
 
 (* with the second instance idle the two-instance run is the one-instance run *)
@@ -1558,4 +1744,58 @@ Proof.
   intros pt. induction ops as [|o r IH]; intros ctd a b; simpl; auto.
   unfold st_of. destruct (step pt (mkState ctd (fst a) (snd a)) o) as [s' ob] eqn:E. simpl.
   f_equal. rewrite IH. unfold st_of. destruct s'; reflexivity.
+Qed.
+
+(* ------------------------------------------------------------------ *)
+(* Part 9: mapped traits (Map): the shadow name comes and goes with the trait.
+   Direct statements about Model.step, for every state (no invariant needed). *)
+
+Lemma name_app_neq : forall (n : name) x, name_eqb n (n ++ [x]) = false.
+Proof.
+  intros n x. apply name_eqb_neq. intro H. apply (f_equal (@length Z)) in H.
+  rewrite app_length in H. simpl in H. lia.
+Qed.
+
+(* add_trait(name, Map(m)) installs the trait and, for name_, the shadow trait *)
+Lemma add_mapped_installs : forall pt s n m d,
+  let s' := fst (step pt s (OAdd n (PMap m d))) in
+  assoc n (s_itd s') = Some (PMap m d) /\ assoc (n ++ [US]) (s_itd s') = Some (PShadow m) /\
+  s_od s' = s_od s.
+Proof.
+  intros pt s n m d. simpl. rewrite !assoc_aset, name_eqb_refl, name_app_neq, name_eqb_refl. auto.
+Qed.
+
+(* remove_trait(name) of a mapped instance trait: the trait, its shadow trait, the value and
+   the shadow value are all gone, so name and name_ are governed by the class-level rule again *)
+Lemma remove_mapped_clears : forall pt s n m d,
+  assoc n (s_itd s) = Some (PMap m d) ->
+  (assoc (n ++ [US]) (s_itd s) <> None \/ amem (n ++ [US]) (s_ctd s) = true) ->
+  let s' := fst (step pt s (ORem n)) in
+  o_out (snd (step pt s (ORem n))) = Val 1 /\
+  assoc n (s_itd s') = None /\ assoc (n ++ [US]) (s_itd s') = None /\
+  assoc n (s_od s') = None /\ assoc (n ++ [US]) (s_od s') = None.
+Proof.
+  intros pt s n m d Hn Hs. simpl. rewrite Hn. simpl mapped_of. cbv iota.
+  assert (Ne : name_eqb (n ++ [US]) n = false) by (rewrite name_eqb_sym; apply name_app_neq).
+  set (s1 := rem1 s (n ++ [US])).
+  assert (F : assoc n (s_itd s1) = Some (PMap m d) /\ assoc (n ++ [US]) (s_itd s1) = None /\
+              assoc (n ++ [US]) (s_od s1) = None).
+  { unfold s1, rem1. destruct (assoc (n ++ [US]) (s_itd s)) as [q|] eqn:Eq; simpl.
+    - rewrite !assoc_adel, Ne, name_eqb_refl. auto.
+    - destruct Hs as [Hs|Hs]; [congruence|]. rewrite Hs. simpl.
+      rewrite assoc_adel, name_eqb_refl. auto. }
+  destruct F as (F1 & F2 & F3).
+  unfold rem1 at 1 2 3 4 5. unfold amem. rewrite F1. simpl.
+  rewrite !assoc_adel, name_eqb_refl, name_app_neq, F2, F3. auto.
+Qed.
+
+Lemma remove_mapped_restores_class_rule : forall ct0 pt s n m d,
+  assoc n (s_itd s) = Some (PMap m d) ->
+  (assoc (n ++ [US]) (s_itd s) <> None \/ amem (n ++ [US]) (s_ctd s) = true) ->
+  let s' := fst (step pt s (ORem n)) in
+  gov ct0 pt s' n = model_rule ct0 pt n /\ gov ct0 pt s' (n ++ [US]) = model_rule ct0 pt (n ++ [US]) /\
+  assoc n (s_od s') = None /\ assoc (n ++ [US]) (s_od s') = None.
+Proof.
+  intros ct0 pt s n m d Hn Hs s'. destruct (remove_mapped_clears pt s n m d Hn Hs) as (_ & A & B & C & D).
+  fold s' in A, B, C, D. unfold gov. rewrite A, B. auto.
 Qed.
